@@ -371,7 +371,11 @@ func c02LimitRefusal(c *core.C) {
 	n := 6 + r.Intn(6)
 	kind := []string{"max-facts", "max-iterations"}[r.Intn(2)]
 	heavy := ast.Block{Rules: []ast.Rule{{Head: ast.P("pair", vX, vY), Body: []ast.Pred{ast.P("p", vX), ast.P("p", vY)}}}}
-	opt := biscuit.WithWorldOptions(datalog.WithMaxFacts(n+n*n/2), datalog.WithMaxIterations(1000), datalog.WithMaxDuration(60*time.Second))
+	maxFacts := n + n*n/2
+	if c.Idx/5%3 != 0 {
+		maxFacts = n + n*n - 1 // one fact short of the least model: a handful of facts of lee-way would be enough
+	}
+	opt := biscuit.WithWorldOptions(datalog.WithMaxFacts(maxFacts), datalog.WithMaxIterations(1000), datalog.WithMaxDuration(60*time.Second))
 	if kind == "max-iterations" {
 		_, rules := ruleChainProg(12)
 		heavy = ast.Block{Facts: []ast.Pred{ast.P("step0")}, Rules: rules}
@@ -413,6 +417,22 @@ func c02LimitRefusal(c *core.C) {
 		{Facts: []ast.Pred{ast.P("harmless", ast.Int(1))}},
 		{Checks: []ast.Check{{Queries: []ast.Rule{{Head: ast.P("query"), Exprs: []ast.Expr{{ast.OV(ast.Bool(true))}}}}}}},
 		{},
+		// the parent's own facts once more (a block's facts must not buy lee-way under the fact limit)
+		{Facts: append(factsP(n), heavy.Facts...)},
+	}
+	// blocks made of failing checks only: whatever their number, one more refusal cannot add up to an acceptance
+	// (255 + the parent's one failing check = 256, 65535 + 1 = 65536)
+	failing := []int{1, 254, 255, 256, 257, 511}
+	if c.Thorough() && c.Idx%50 == 19 {
+		failing = append(failing, 65535, 65536)
+	}
+	for _, m := range failing {
+		b := ast.Block{}
+		for i := 0; i < m; i++ {
+			b.Checks = append(b.Checks, ast.Check{Queries: []ast.Rule{{Head: ast.P("query"), Body: []ast.Pred{ast.P("nope", ast.Int(int64(i)))}}}})
+		}
+		harmless = append(harmless, b)
+		c.Count("failing_check_blocks", 1)
 	}
 	obs := func(t *lib.Token) (lib.Class, string) {
 		var cl lib.Class
@@ -455,7 +475,7 @@ func c02LimitRefusal(c *core.C) {
 		}
 		cc, ce := obs(child)
 		c.Eval(1)
-		desc := map[string]any{"source": "limit-refusal/" + kind, "token": gen.Texts(parent.Blocks), "appended": gen.Texts([]ast.Block{h})[0], "parent": pc, "parent_error": pe, "child": cc, "child_error": ce}
+		desc := map[string]any{"source": "limit-refusal/" + kind, "token": gen.Texts(parent.Blocks), "appended": capLines(gen.Texts([]ast.Block{h})[0], 12), "appended_checks": len(h.Checks), "appended_facts": len(h.Facts), "parent": pc, "parent_error": pe, "child": cc, "child_error": ce}
 		if pc != lib.OK && cc == lib.OK {
 			c.Violate("attenuation-widened/limit-refusal-"+kind, fmt.Sprintf("the parent is refused (%s: %s); appending a harmless block makes it accepted", kind, pe), desc)
 		}
@@ -474,6 +494,7 @@ func c02Run(c *core.C) {
 	r := c.R
 	for rep := 0; rep < 4; rep++ {
 		s := gen.NewScenario(r, 3, scenOpts)
+		countBig(c, s)
 		tok, err := buildScenarioToken(c.Seed, fmt.Sprintf("c02-%d-%d", c.Idx, rep), s.Blocks)
 		if err != nil {
 			c.Violate("build-refused", err.Error(), gen.Texts(s.Blocks))
@@ -659,12 +680,14 @@ func c03Run(c *core.C) {
 	// symbols are scoped like facts: a block cannot give a meaning to a symbol index that an
 	// earlier block left undefined, whichever way the token was derived (shared with C02)
 	if ds := gen.NewScenario(r, 2, scenOpts); true {
+		countBig(c, ds)
 		if dt, err := buildScenarioToken(c.Seed, fmt.Sprintf("c03-dang-%d", c.Idx), ds.Blocks); err == nil {
 			c02Dangling(c, dt, ds.Auth)
 		}
 	}
 	for rep := 0; rep < 4; rep++ {
 		s := gen.NewScenario(r, 3, scenOpts)
+		countBig(c, s)
 		a := s.Auth
 		if r.Intn(2) == 0 {
 			_, a = c04Perturb(r, s.U, a)
@@ -873,4 +896,11 @@ func init() {
 			return u
 		},
 	})
+}
+
+func capLines(l []string, n int) []string {
+	if len(l) <= n {
+		return l
+	}
+	return append(append([]string{}, l[:n]...), fmt.Sprintf("... %d more", len(l)-n))
 }
